@@ -124,7 +124,17 @@ def full_cases(draw):
                     if draw(st.booleans()):
                         g["lit"] = M.lit_of(draw(st.sampled_from(pool)))
         progs.append({"prog": c["prog"], "inputs": c["inputs"], "noise": c["noise"]})
-    return {"programs": progs, "live": draw(st.booleans())}
+        if draw(st.booleans()):
+            # ... followed by a NEIGHBOUR of that program (other blanks / case / normal form in the salt or a string, ==-equal
+            # literal of another type ...): a normalising checksum would skip exactly this recompile
+            from .. import neighbours
+
+            nbs = neighbours.neighbours(c["prog"])
+            if nbs:
+                _, a, b = nbs[draw(st.integers(0, len(nbs) - 1))]
+                progs[-1] = {"prog": a, "inputs": c["inputs"], "noise": c["noise"]}
+                progs.append({"prog": b, "inputs": c["inputs"], "noise": None})
+    return {"programs": progs, "live": draw(st.sampled_from([True, True, False]))}
 
 
 def _expected(prog, env):
